@@ -81,6 +81,9 @@ func mkVuln(v vulnS) *claircore.Vulnerability {
 // perturb yields, spins or sleeps by the seeded generator: the "arbitrary
 // delays and yields at store and matcher boundaries" of the quantifier.
 func (w *world) perturb() {
+	if w.rnd == nil {
+		return
+	}
 	w.mu.Lock()
 	c := w.rnd.Intn(100)
 	n := w.rnd.Intn(40)
